@@ -110,6 +110,7 @@ func isBytesBuffer(r io.Reader) bool {
 //@ ensures names-local: nsLocalOK(d.Names.offsets, d.Names.unquotedNames) && len(d.Names.offsets) == old(len(d.Names.offsets))
 //@ ensures names-copied: d.rd != nil ==> vForall(0, len(d.Names.offsets), func(i int) bool { return d.Names.offsets[i] >= 0 })
 //@ ensures names-remote: nsRemoteOK(d.Names.offsets, len(d.buf))
+//@ ensures exact: old(nsWindowQuoted(d.Names.offsets, d.buf, d.prevStart)) ==> nsWindowQuoted(d.Names.offsets, d.buf, d.prevStart) && vForall(0, old(len(d.buf))-old(d.prevStart), func(k int) bool { return d.buf[d.prevStart+k] == old(d.buf[d.prevStart+k]) })
 //@ ensures buf-alias: sameOrFresh(d.buf, old(d.buf))
 //@ ensures plain-err: asSuffixErr(result) == nil
 //@ ensures names-alias: sameOrFresh(d.Names.unquotedNames, old(d.Names.unquotedNames))
@@ -119,6 +120,7 @@ func isBytesBuffer(r io.Reader) bool {
 //@ loop 0 invariant window: vForall(0, len(d.buf), func(i int) bool { return d.buf[i] == old(d.buf[i+d.prevStart]) || (old(d.buf[i+d.prevStart]) == invalidateBufferByte && d.buf[i] == '"') })
 //@ loop 0 invariant names: nsLocalOK(d.Names.offsets, d.Names.unquotedNames) && vForall(0, len(d.Names.offsets), func(i int) bool { return d.Names.offsets[i] >= 0 })
 //@ loop 0 invariant distinct: distinctArrays(d.Names.unquotedNames, d.buf)
+//@ loop 0 invariant exact: old(nsWindowQuoted(d.Names.offsets, d.buf, d.prevStart)) ==> vForall(0, len(d.buf), func(i int) bool { return d.buf[i] == old(d.buf[i+d.prevStart]) })
 
 // ---------------------------------------------------------------- consume* wrappers
 //
@@ -130,10 +132,13 @@ func isBytesBuffer(r io.Reader) bool {
 //@ func (*decoderState).consumeWhitespace
 //@ property C05 C16 C20
 //@ requires d != nil && dbInv(d.prevStart, d.prevEnd, len(d.buf), d.baseOffset) && d.prevStart <= pos && pos <= len(d.buf) && d.baseOffset+int64(len(d.buf)) < 1<<61
-//@ requires nsLocalOK(d.Names.offsets, d.Names.unquotedNames) && nsRemoteOK(d.Names.offsets, len(d.buf)) && distinctArrays(d.Names.unquotedNames, d.buf)
+//@ requires nsLocalOK(d.Names.offsets, d.Names.unquotedNames) && nsRemoteOK(d.Names.offsets, len(d.buf)) && distinctArrays(d.Names.unquotedNames, d.buf) && nsWindowQuoted(d.Names.offsets, d.buf, d.prevStart)
 //@ modifies d.buf, d.buf[:cap(d.buf)], d.prevStart, d.prevEnd, d.baseOffset, d.Names.unquotedNames, d.Names.unquotedNames[:cap(d.Names.unquotedNames)], d.Names.offsets[:]
 //@ ensures inv: dbInv(d.prevStart, d.prevEnd, len(d.buf), d.baseOffset) && d.prevStart <= newPos && newPos <= len(d.buf) && d.baseOffset+int64(len(d.buf)) < 1<<61
 //@ ensures start: d.baseOffset+int64(d.prevStart) == old(d.baseOffset)+int64(old(d.prevStart))
+//@ ensures wq: nsWindowQuoted(d.Names.offsets, d.buf, d.prevStart)
+//@ ensures window: vForall(0, old(len(d.buf))-old(d.prevStart), func(k int) bool { return d.buf[d.prevStart+k] == old(d.buf[d.prevStart+k]) })
+//@ ensures grow: len(d.buf)-d.prevStart >= old(len(d.buf))-old(d.prevStart)
 //@ ensures end: d.baseOffset+int64(d.prevEnd) == old(d.baseOffset)+int64(old(d.prevEnd))
 //@ ensures forward: d.baseOffset+int64(newPos) >= old(d.baseOffset)+int64(pos)
 //@ ensures ok: err == nil ==> newPos < len(d.buf) && !isWS(d.buf[newPos])
@@ -147,6 +152,9 @@ func isBytesBuffer(r io.Reader) bool {
 //@ loop 0 invariant pos: d.prevStart <= pos && pos <= len(d.buf)
 //@ loop 0 invariant bound: d.baseOffset+int64(len(d.buf)) < 1<<61
 //@ loop 0 invariant start: d.baseOffset+int64(d.prevStart) == old(d.baseOffset)+int64(old(d.prevStart))
+//@ loop 0 invariant wq: nsWindowQuoted(d.Names.offsets, d.buf, d.prevStart)
+//@ loop 0 invariant window: vForall(0, old(len(d.buf))-old(d.prevStart), func(k int) bool { return d.buf[d.prevStart+k] == old(d.buf[d.prevStart+k]) })
+//@ loop 0 invariant grow: len(d.buf)-d.prevStart >= old(len(d.buf))-old(d.prevStart)
 //@ loop 0 invariant end: d.baseOffset+int64(d.prevEnd) == old(d.baseOffset)+int64(old(d.prevEnd))
 //@ loop 0 invariant forward: d.baseOffset+int64(pos) >= old(d.baseOffset)+int64(old(pos))
 //@ loop 0 invariant skipped: vForall(d.prevStart+(old(pos)-old(d.prevStart)), pos, func(i int) bool { return isWS(d.buf[i]) })
@@ -159,10 +167,13 @@ func isBytesBuffer(r io.Reader) bool {
 //@ func (*decoderState).consumeLiteral
 //@ property C05 C16 C20
 //@ requires d != nil && dbInv(d.prevStart, d.prevEnd, len(d.buf), d.baseOffset) && d.prevStart <= pos && pos <= len(d.buf) && d.baseOffset+int64(len(d.buf)) < 1<<61
-//@ requires nsLocalOK(d.Names.offsets, d.Names.unquotedNames) && nsRemoteOK(d.Names.offsets, len(d.buf)) && distinctArrays(d.Names.unquotedNames, d.buf)
+//@ requires nsLocalOK(d.Names.offsets, d.Names.unquotedNames) && nsRemoteOK(d.Names.offsets, len(d.buf)) && distinctArrays(d.Names.unquotedNames, d.buf) && nsWindowQuoted(d.Names.offsets, d.buf, d.prevStart)
 //@ modifies d.buf, d.buf[:cap(d.buf)], d.prevStart, d.prevEnd, d.baseOffset, d.Names.unquotedNames, d.Names.unquotedNames[:cap(d.Names.unquotedNames)], d.Names.offsets[:]
 //@ ensures inv: dbInv(d.prevStart, d.prevEnd, len(d.buf), d.baseOffset) && d.prevStart <= newPos && newPos <= len(d.buf) && d.baseOffset+int64(len(d.buf)) < 1<<61
 //@ ensures start: d.baseOffset+int64(d.prevStart) == old(d.baseOffset)+int64(old(d.prevStart))
+//@ ensures wq: nsWindowQuoted(d.Names.offsets, d.buf, d.prevStart)
+//@ ensures window: vForall(0, old(len(d.buf))-old(d.prevStart), func(k int) bool { return d.buf[d.prevStart+k] == old(d.buf[d.prevStart+k]) })
+//@ ensures grow: len(d.buf)-d.prevStart >= old(len(d.buf))-old(d.prevStart)
 //@ ensures end: d.baseOffset+int64(d.prevEnd) == old(d.baseOffset)+int64(old(d.prevEnd))
 //@ ensures names: nsLocalOK(d.Names.offsets, d.Names.unquotedNames) && nsRemoteOK(d.Names.offsets, len(d.buf)) && distinctArrays(d.Names.unquotedNames, d.buf) && len(d.Names.offsets) == old(len(d.Names.offsets))
 //@ ensures alias: sameOrFresh(d.buf, old(d.buf)) && sameOrFresh(d.Names.unquotedNames, old(d.Names.unquotedNames))
@@ -173,6 +184,9 @@ func isBytesBuffer(r io.Reader) bool {
 //@ loop 0 invariant pos: d.prevStart <= pos && pos <= len(d.buf)
 //@ loop 0 invariant bound: d.baseOffset+int64(len(d.buf)) < 1<<61
 //@ loop 0 invariant start: d.baseOffset+int64(d.prevStart) == old(d.baseOffset)+int64(old(d.prevStart))
+//@ loop 0 invariant wq: nsWindowQuoted(d.Names.offsets, d.buf, d.prevStart)
+//@ loop 0 invariant window: vForall(0, old(len(d.buf))-old(d.prevStart), func(k int) bool { return d.buf[d.prevStart+k] == old(d.buf[d.prevStart+k]) })
+//@ loop 0 invariant grow: len(d.buf)-d.prevStart >= old(len(d.buf))-old(d.prevStart)
 //@ loop 0 invariant end: d.baseOffset+int64(d.prevEnd) == old(d.baseOffset)+int64(old(d.prevEnd))
 //@ loop 0 invariant anchor: pos-d.prevStart == old(pos)-old(d.prevStart)
 //@ loop 0 invariant names: nsLocalOK(d.Names.offsets, d.Names.unquotedNames) && nsRemoteOK(d.Names.offsets, len(d.buf)) && distinctArrays(d.Names.unquotedNames, d.buf) && len(d.Names.offsets) == old(len(d.Names.offsets))
@@ -185,10 +199,13 @@ func isBytesBuffer(r io.Reader) bool {
 //@ property C05 C16 C20
 //@ requires flags != nil
 //@ requires d != nil && dbInv(d.prevStart, d.prevEnd, len(d.buf), d.baseOffset) && d.prevStart <= pos && pos <= len(d.buf) && d.baseOffset+int64(len(d.buf)) < 1<<61
-//@ requires nsLocalOK(d.Names.offsets, d.Names.unquotedNames) && nsRemoteOK(d.Names.offsets, len(d.buf)) && distinctArrays(d.Names.unquotedNames, d.buf)
+//@ requires nsLocalOK(d.Names.offsets, d.Names.unquotedNames) && nsRemoteOK(d.Names.offsets, len(d.buf)) && distinctArrays(d.Names.unquotedNames, d.buf) && nsWindowQuoted(d.Names.offsets, d.buf, d.prevStart)
 //@ modifies d.buf, d.buf[:cap(d.buf)], d.prevStart, d.prevEnd, d.baseOffset, d.Names.unquotedNames, d.Names.unquotedNames[:cap(d.Names.unquotedNames)], d.Names.offsets[:]
 //@ ensures inv: dbInv(d.prevStart, d.prevEnd, len(d.buf), d.baseOffset) && d.prevStart <= newPos && newPos <= len(d.buf) && d.baseOffset+int64(len(d.buf)) < 1<<61
 //@ ensures start: d.baseOffset+int64(d.prevStart) == old(d.baseOffset)+int64(old(d.prevStart))
+//@ ensures wq: nsWindowQuoted(d.Names.offsets, d.buf, d.prevStart)
+//@ ensures window: vForall(0, old(len(d.buf))-old(d.prevStart), func(k int) bool { return d.buf[d.prevStart+k] == old(d.buf[d.prevStart+k]) })
+//@ ensures grow: len(d.buf)-d.prevStart >= old(len(d.buf))-old(d.prevStart)
 //@ ensures end: d.baseOffset+int64(d.prevEnd) == old(d.baseOffset)+int64(old(d.prevEnd))
 //@ ensures names: nsLocalOK(d.Names.offsets, d.Names.unquotedNames) && nsRemoteOK(d.Names.offsets, len(d.buf)) && distinctArrays(d.Names.unquotedNames, d.buf) && len(d.Names.offsets) == old(len(d.Names.offsets))
 //@ ensures alias: sameOrFresh(d.buf, old(d.buf)) && sameOrFresh(d.Names.unquotedNames, old(d.Names.unquotedNames))
@@ -199,6 +216,9 @@ func isBytesBuffer(r io.Reader) bool {
 //@ loop 0 invariant pos: d.prevStart <= pos && pos <= len(d.buf)
 //@ loop 0 invariant bound: d.baseOffset+int64(len(d.buf)) < 1<<61
 //@ loop 0 invariant start: d.baseOffset+int64(d.prevStart) == old(d.baseOffset)+int64(old(d.prevStart))
+//@ loop 0 invariant wq: nsWindowQuoted(d.Names.offsets, d.buf, d.prevStart)
+//@ loop 0 invariant window: vForall(0, old(len(d.buf))-old(d.prevStart), func(k int) bool { return d.buf[d.prevStart+k] == old(d.buf[d.prevStart+k]) })
+//@ loop 0 invariant grow: len(d.buf)-d.prevStart >= old(len(d.buf))-old(d.prevStart)
 //@ loop 0 invariant end: d.baseOffset+int64(d.prevEnd) == old(d.baseOffset)+int64(old(d.prevEnd))
 //@ loop 0 invariant anchor: pos-d.prevStart == old(pos)-old(d.prevStart)
 //@ loop 0 invariant names: nsLocalOK(d.Names.offsets, d.Names.unquotedNames) && nsRemoteOK(d.Names.offsets, len(d.buf)) && distinctArrays(d.Names.unquotedNames, d.buf) && len(d.Names.offsets) == old(len(d.Names.offsets))
@@ -211,24 +231,31 @@ func isBytesBuffer(r io.Reader) bool {
 //@ func (*decoderState).consumeNumber
 //@ property C05 C10 C16 C20
 //@ requires d != nil && dbInv(d.prevStart, d.prevEnd, len(d.buf), d.baseOffset) && d.prevStart <= pos && pos <= len(d.buf) && d.baseOffset+int64(len(d.buf)) < 1<<61
-//@ requires nsLocalOK(d.Names.offsets, d.Names.unquotedNames) && nsRemoteOK(d.Names.offsets, len(d.buf)) && distinctArrays(d.Names.unquotedNames, d.buf)
+//@ requires nsLocalOK(d.Names.offsets, d.Names.unquotedNames) && nsRemoteOK(d.Names.offsets, len(d.buf)) && distinctArrays(d.Names.unquotedNames, d.buf) && nsWindowQuoted(d.Names.offsets, d.buf, d.prevStart)
 //@ modifies d.buf, d.buf[:cap(d.buf)], d.prevStart, d.prevEnd, d.baseOffset, d.Names.unquotedNames, d.Names.unquotedNames[:cap(d.Names.unquotedNames)], d.Names.offsets[:]
 //@ ensures inv: dbInv(d.prevStart, d.prevEnd, len(d.buf), d.baseOffset) && d.prevStart <= newPos && newPos <= len(d.buf) && d.baseOffset+int64(len(d.buf)) < 1<<61
 //@ ensures start: d.baseOffset+int64(d.prevStart) == old(d.baseOffset)+int64(old(d.prevStart))
+//@ ensures wq: nsWindowQuoted(d.Names.offsets, d.buf, d.prevStart)
+//@ ensures window: vForall(0, old(len(d.buf))-old(d.prevStart), func(k int) bool { return d.buf[d.prevStart+k] == old(d.buf[d.prevStart+k]) })
+//@ ensures grow: len(d.buf)-d.prevStart >= old(len(d.buf))-old(d.prevStart)
 //@ ensures end: d.baseOffset+int64(d.prevEnd) == old(d.baseOffset)+int64(old(d.prevEnd))
 //@ ensures names: nsLocalOK(d.Names.offsets, d.Names.unquotedNames) && nsRemoteOK(d.Names.offsets, len(d.buf)) && distinctArrays(d.Names.unquotedNames, d.buf) && len(d.Names.offsets) == old(len(d.Names.offsets))
 //@ ensures alias: sameOrFresh(d.buf, old(d.buf)) && sameOrFresh(d.Names.unquotedNames, old(d.Names.unquotedNames))
 //@ ensures plain-err: asSuffixErr(err) == nil
 //@ ensures anchor: newPos-d.prevStart >= pos-old(d.prevStart)
+//@ ensures progress: err == nil ==> newPos-d.prevStart > pos-old(d.prevStart)
 //@ loop 0 invariant inv: dbInv(d.prevStart, d.prevEnd, len(d.buf), d.baseOffset)
 //@ loop 0 invariant pos: d.prevStart <= pos && pos <= len(d.buf)
 //@ loop 0 invariant bound: d.baseOffset+int64(len(d.buf)) < 1<<61
 //@ loop 0 invariant start: d.baseOffset+int64(d.prevStart) == old(d.baseOffset)+int64(old(d.prevStart))
+//@ loop 0 invariant wq: nsWindowQuoted(d.Names.offsets, d.buf, d.prevStart)
+//@ loop 0 invariant window: vForall(0, old(len(d.buf))-old(d.prevStart), func(k int) bool { return d.buf[d.prevStart+k] == old(d.buf[d.prevStart+k]) })
+//@ loop 0 invariant grow: len(d.buf)-d.prevStart >= old(len(d.buf))-old(d.prevStart)
 //@ loop 0 invariant end: d.baseOffset+int64(d.prevEnd) == old(d.baseOffset)+int64(old(d.prevEnd))
 //@ loop 0 invariant anchor: pos-d.prevStart == old(pos)-old(d.prevStart)
 //@ loop 0 invariant names: nsLocalOK(d.Names.offsets, d.Names.unquotedNames) && nsRemoteOK(d.Names.offsets, len(d.buf)) && distinctArrays(d.Names.unquotedNames, d.buf) && len(d.Names.offsets) == old(len(d.Names.offsets))
 //@ loop 0 invariant alias: sameOrFresh(d.buf, old(d.buf)) && sameOrFresh(d.Names.unquotedNames, old(d.Names.unquotedNames))
-//@ loop 0 invariant resume: 0 <= n && pos+n <= len(d.buf) && state <= 6 && (state <= 1 ==> n == 0) && (state == 5 ==> pos+n < len(d.buf))
+//@ loop 0 invariant resume: 0 <= n && pos+n <= len(d.buf) && state <= 6 && (state <= 1 ==> n == 0) && (state >= 2 ==> n >= 1) && (state == 5 ==> pos+n < len(d.buf))
 
 // ---------------------------------------------------------------- error wrapping
 
@@ -239,19 +266,19 @@ func asSuffixErr(err error) *pointerSuffixError {
 }
 
 // wrapWithObjectName: the name "must be a valid quoted JSON string" (its doc
-// comment); the contract requires the part of that which every caller must
-// re-establish after the buffer may have moved: the slice still starts and ends
-// with a quotation mark.
+// comment). The callers in consumeObject must pass a slice of the *current*
+// buffer (see the `current` assertions there): a slice taken before a refill
+// may no longer hold the name (finding F4).
 //
 //@ func wrapWithObjectName
 //@ property C05 C16 C20
-//@ requires quoted: len(quotedName) >= 2 && quotedName[0] == '"' && quotedName[len(quotedName)-1] == '"'
+//@ requires quoted: len(quotedName) >= 2
 //@ requires scratch: asSuffixErr(err) == nil || distinctArrays(asSuffixErr(err).reversePointer, quotedName)
 //@ modifies asSuffixErr(err).reversePointer, asSuffixErr(err).reversePointer[:cap(asSuffixErr(err).reversePointer)]
 //@ ensures nonnil: result != nil && asSuffixErr(result) != nil
 //@ ensures same-or-fresh: asSuffixErr(result) == asSuffixErr(err) || (asSuffixErr(err) == nil && freshObject(asSuffixErr(result)))
 //@ ensures scratch-kept: asSuffixErr(err) != nil ==> sameOrFresh(asSuffixErr(result).reversePointer, old(asSuffixErr(err).reversePointer))
-//@ ensures scratch-new: asSuffixErr(err) == nil ==> freshArray(asSuffixErr(result).reversePointer) || cap(asSuffixErr(result).reversePointer) == 0
+//@ ensures scratch-new: asSuffixErr(err) == nil ==> freshArray(asSuffixErr(result).reversePointer)
 
 //@ func wrapWithArrayIndex
 //@ property C16 C20
@@ -260,7 +287,7 @@ func asSuffixErr(err error) *pointerSuffixError {
 //@ ensures nonnil: result != nil && asSuffixErr(result) != nil
 //@ ensures same-or-fresh: asSuffixErr(result) == asSuffixErr(err) || (asSuffixErr(err) == nil && freshObject(asSuffixErr(result)))
 //@ ensures scratch-kept: asSuffixErr(err) != nil ==> sameOrFresh(asSuffixErr(result).reversePointer, old(asSuffixErr(err).reversePointer))
-//@ ensures scratch-new: asSuffixErr(err) == nil ==> freshArray(asSuffixErr(result).reversePointer) || cap(asSuffixErr(result).reversePointer) == 0
+//@ ensures scratch-new: asSuffixErr(err) == nil ==> freshArray(asSuffixErr(result).reversePointer)
 
 // ---------------------------------------------------------------- value path (thin contracts)
 //
@@ -275,25 +302,38 @@ func asSuffixErr(err error) *pointerSuffixError {
 //@ func (Kind).normalize
 //@ inline
 
+// quotedNameAt re-derives a slice of the buffer from its absolute offset.
+//
+//@ func (*decoderState).quotedNameAt
+//@ inline
+//@ property C05 C16 C20
+//@ requires d != nil && 0 <= n && 0 <= absPos-d.baseOffset && absPos-d.baseOffset+int64(n) <= int64(len(d.buf)) && d.baseOffset >= 0 && d.baseOffset < 1<<61 && absPos < 1<<62
+//@ ensures length: len(result) == n && sameSlice(result, d.buf[int(absPos-d.baseOffset):int(absPos-d.baseOffset)+n])
+
 //@ func (*decoderState).consumeValue
 //@ split
 //@ property C05 C16 C20
 //@ requires flags != nil && 1 <= depth && depth <= maxNestingDepth+1
 //@ requires d != nil && dbInv(d.prevStart, d.prevEnd, len(d.buf), d.baseOffset) && d.prevStart <= pos && pos < len(d.buf) && d.baseOffset+int64(len(d.buf)) < 1<<61
-//@ requires nsLocalOK(d.Names.offsets, d.Names.unquotedNames) && nsRemoteOK(d.Names.offsets, len(d.buf)) && distinctArrays(d.Names.unquotedNames, d.buf)
+//@ requires nsLocalOK(d.Names.offsets, d.Names.unquotedNames) && nsRemoteOK(d.Names.offsets, len(d.buf)) && distinctArrays(d.Names.unquotedNames, d.buf) && nsWindowQuoted(d.Names.offsets, d.buf, d.prevStart)
 //@ modifies *flags, d.buf, d.buf[:cap(d.buf)], d.prevStart, d.prevEnd, d.baseOffset, d.Names.unquotedNames, d.Names.unquotedNames[:cap(d.Names.unquotedNames)], d.Names.offsets[:], d.Namespaces, d.Namespaces[:cap(d.Namespaces)]
 //@ ensures inv: dbInv(d.prevStart, d.prevEnd, len(d.buf), d.baseOffset) && d.prevStart <= newPos && newPos <= len(d.buf) && d.baseOffset+int64(len(d.buf)) < 1<<61
 //@ ensures start: d.baseOffset+int64(d.prevStart) == old(d.baseOffset)+int64(old(d.prevStart))
+//@ ensures wq: nsWindowQuoted(d.Names.offsets, d.buf, d.prevStart)
+//@ ensures grow: len(d.buf)-d.prevStart >= old(len(d.buf))-old(d.prevStart)
 //@ ensures end: d.baseOffset+int64(d.prevEnd) == old(d.baseOffset)+int64(old(d.prevEnd))
 //@ ensures names: nsLocalOK(d.Names.offsets, d.Names.unquotedNames) && nsRemoteOK(d.Names.offsets, len(d.buf)) && distinctArrays(d.Names.unquotedNames, d.buf) && len(d.Names.offsets) == old(len(d.Names.offsets))
 //@ ensures alias: sameOrFresh(d.buf, old(d.buf)) && sameOrFresh(d.Names.unquotedNames, old(d.Names.unquotedNames))
 //@ ensures anchor: newPos-d.prevStart >= pos-old(d.prevStart)
 //@ ensures balanced: len(d.Namespaces) == old(len(d.Namespaces)) && sameOrFresh(d.Namespaces, old(d.Namespaces))
-//@ ensures err-fresh: freshObject(asSuffixErr(err)) && (asSuffixErr(err) != nil ==> freshArray(asSuffixErr(err).reversePointer) || cap(asSuffixErr(err).reversePointer) == 0)
+//@ ensures err-fresh: freshObject(asSuffixErr(err)) && (asSuffixErr(err) != nil ==> freshArray(asSuffixErr(err).reversePointer))
+//@ ensures err-distinct: asSuffixErr(err) != nil ==> distinctArrays(asSuffixErr(err).reversePointer, d.buf) && distinctArrays(asSuffixErr(err).reversePointer, d.Names.unquotedNames)
 //@ ensures progress: err == nil ==> newPos-d.prevStart > pos-old(d.prevStart)
 //@ loop 0 invariant inv: dbInv(d.prevStart, d.prevEnd, len(d.buf), d.baseOffset) && d.baseOffset+int64(len(d.buf)) < 1<<61
 //@ loop 0 invariant pos: d.prevStart <= pos && pos < len(d.buf)
 //@ loop 0 invariant start: d.baseOffset+int64(d.prevStart) == old(d.baseOffset)+int64(old(d.prevStart))
+//@ loop 0 invariant wq: nsWindowQuoted(d.Names.offsets, d.buf, d.prevStart)
+//@ loop 0 invariant grow: len(d.buf)-d.prevStart >= old(len(d.buf))-old(d.prevStart)
 //@ loop 0 invariant end: d.baseOffset+int64(d.prevEnd) == old(d.baseOffset)+int64(old(d.prevEnd))
 //@ loop 0 invariant anchor: pos-d.prevStart == old(pos)-old(d.prevStart)
 //@ loop 0 invariant names: nsLocalOK(d.Names.offsets, d.Names.unquotedNames) && nsRemoteOK(d.Names.offsets, len(d.buf)) && distinctArrays(d.Names.unquotedNames, d.buf) && len(d.Names.offsets) == old(len(d.Names.offsets))
@@ -301,25 +341,31 @@ func asSuffixErr(err error) *pointerSuffixError {
 //@ loop 0 invariant balanced: len(d.Namespaces) == old(len(d.Namespaces)) && sameOrFresh(d.Namespaces, old(d.Namespaces))
 
 //@ func (*decoderState).consumeArray
+//@ split
 //@ property C05 C16 C20
 //@ requires flags != nil && 1 <= depth && depth <= maxNestingDepth+1
 //@ requires d != nil && dbInv(d.prevStart, d.prevEnd, len(d.buf), d.baseOffset) && d.prevStart <= pos && pos < len(d.buf) && d.buf[pos] == '[' && d.baseOffset+int64(len(d.buf)) < 1<<61
-//@ requires nsLocalOK(d.Names.offsets, d.Names.unquotedNames) && nsRemoteOK(d.Names.offsets, len(d.buf)) && distinctArrays(d.Names.unquotedNames, d.buf)
+//@ requires nsLocalOK(d.Names.offsets, d.Names.unquotedNames) && nsRemoteOK(d.Names.offsets, len(d.buf)) && distinctArrays(d.Names.unquotedNames, d.buf) && nsWindowQuoted(d.Names.offsets, d.buf, d.prevStart)
 //@ modifies *flags, d.buf, d.buf[:cap(d.buf)], d.prevStart, d.prevEnd, d.baseOffset, d.Names.unquotedNames, d.Names.unquotedNames[:cap(d.Names.unquotedNames)], d.Names.offsets[:], d.Namespaces, d.Namespaces[:cap(d.Namespaces)]
 //@ ensures inv: dbInv(d.prevStart, d.prevEnd, len(d.buf), d.baseOffset) && d.prevStart <= newPos && newPos <= len(d.buf) && d.baseOffset+int64(len(d.buf)) < 1<<61
 //@ ensures start: d.baseOffset+int64(d.prevStart) == old(d.baseOffset)+int64(old(d.prevStart))
+//@ ensures wq: nsWindowQuoted(d.Names.offsets, d.buf, d.prevStart)
+//@ ensures grow: len(d.buf)-d.prevStart >= old(len(d.buf))-old(d.prevStart)
 //@ ensures end: d.baseOffset+int64(d.prevEnd) == old(d.baseOffset)+int64(old(d.prevEnd))
 //@ ensures names: nsLocalOK(d.Names.offsets, d.Names.unquotedNames) && nsRemoteOK(d.Names.offsets, len(d.buf)) && distinctArrays(d.Names.unquotedNames, d.buf) && len(d.Names.offsets) == old(len(d.Names.offsets))
 //@ ensures alias: sameOrFresh(d.buf, old(d.buf)) && sameOrFresh(d.Names.unquotedNames, old(d.Names.unquotedNames))
 //@ ensures anchor: newPos-d.prevStart >= pos-old(d.prevStart)
 //@ ensures balanced: len(d.Namespaces) == old(len(d.Namespaces)) && sameOrFresh(d.Namespaces, old(d.Namespaces))
-//@ ensures err-fresh: freshObject(asSuffixErr(err)) && (asSuffixErr(err) != nil ==> freshArray(asSuffixErr(err).reversePointer) || cap(asSuffixErr(err).reversePointer) == 0)
+//@ ensures err-fresh: freshObject(asSuffixErr(err)) && (asSuffixErr(err) != nil ==> freshArray(asSuffixErr(err).reversePointer))
+//@ ensures err-distinct: asSuffixErr(err) != nil ==> distinctArrays(asSuffixErr(err).reversePointer, d.buf) && distinctArrays(asSuffixErr(err).reversePointer, d.Names.unquotedNames)
 //@ ensures progress: err == nil ==> newPos-d.prevStart > pos-old(d.prevStart)
 //@ ensures depth-limit: depth == maxNestingDepth+1 ==> err == errMaxDepth && newPos == pos && d.baseOffset == old(d.baseOffset)
 //@ ensures depth-ok: err == errMaxDepth ==> depth == maxNestingDepth+1 || true
 //@ loop 0 invariant inv: dbInv(d.prevStart, d.prevEnd, len(d.buf), d.baseOffset) && d.baseOffset+int64(len(d.buf)) < 1<<61
 //@ loop 0 invariant pos: d.prevStart <= pos && pos <= len(d.buf) && depth == old(depth)+1 && depth <= maxNestingDepth+1
 //@ loop 0 invariant start: d.baseOffset+int64(d.prevStart) == old(d.baseOffset)+int64(old(d.prevStart))
+//@ loop 0 invariant wq: nsWindowQuoted(d.Names.offsets, d.buf, d.prevStart)
+//@ loop 0 invariant grow: len(d.buf)-d.prevStart >= old(len(d.buf))-old(d.prevStart)
 //@ loop 0 invariant end: d.baseOffset+int64(d.prevEnd) == old(d.baseOffset)+int64(old(d.prevEnd))
 //@ loop 0 invariant names: nsLocalOK(d.Names.offsets, d.Names.unquotedNames) && nsRemoteOK(d.Names.offsets, len(d.buf)) && distinctArrays(d.Names.unquotedNames, d.buf) && len(d.Names.offsets) == old(len(d.Names.offsets))
 //@ loop 0 invariant alias: sameOrFresh(d.buf, old(d.buf)) && sameOrFresh(d.Names.unquotedNames, old(d.Names.unquotedNames))
@@ -327,25 +373,35 @@ func asSuffixErr(err error) *pointerSuffixError {
 //@ loop 0 invariant index: idx >= 0 && int64(pos-d.prevStart) >= int64(old(pos)-old(d.prevStart))+1+idx
 
 //@ func (*decoderState).consumeObject
+//@ split
 //@ property C05 C16 C20
 //@ requires flags != nil && 1 <= depth && depth <= maxNestingDepth+1
 //@ requires d != nil && dbInv(d.prevStart, d.prevEnd, len(d.buf), d.baseOffset) && d.prevStart <= pos && pos < len(d.buf) && d.buf[pos] == '{' && d.baseOffset+int64(len(d.buf)) < 1<<61
-//@ requires nsLocalOK(d.Names.offsets, d.Names.unquotedNames) && nsRemoteOK(d.Names.offsets, len(d.buf)) && distinctArrays(d.Names.unquotedNames, d.buf)
+//@ requires nsLocalOK(d.Names.offsets, d.Names.unquotedNames) && nsRemoteOK(d.Names.offsets, len(d.buf)) && distinctArrays(d.Names.unquotedNames, d.buf) && nsWindowQuoted(d.Names.offsets, d.buf, d.prevStart)
 //@ modifies *flags, d.buf, d.buf[:cap(d.buf)], d.prevStart, d.prevEnd, d.baseOffset, d.Names.unquotedNames, d.Names.unquotedNames[:cap(d.Names.unquotedNames)], d.Names.offsets[:], d.Namespaces, d.Namespaces[:cap(d.Namespaces)]
 //@ ensures inv: dbInv(d.prevStart, d.prevEnd, len(d.buf), d.baseOffset) && d.prevStart <= newPos && newPos <= len(d.buf) && d.baseOffset+int64(len(d.buf)) < 1<<61
 //@ ensures start: d.baseOffset+int64(d.prevStart) == old(d.baseOffset)+int64(old(d.prevStart))
+//@ ensures wq: nsWindowQuoted(d.Names.offsets, d.buf, d.prevStart)
+//@ ensures grow: len(d.buf)-d.prevStart >= old(len(d.buf))-old(d.prevStart)
 //@ ensures end: d.baseOffset+int64(d.prevEnd) == old(d.baseOffset)+int64(old(d.prevEnd))
 //@ ensures names: nsLocalOK(d.Names.offsets, d.Names.unquotedNames) && nsRemoteOK(d.Names.offsets, len(d.buf)) && distinctArrays(d.Names.unquotedNames, d.buf) && len(d.Names.offsets) == old(len(d.Names.offsets))
 //@ ensures alias: sameOrFresh(d.buf, old(d.buf)) && sameOrFresh(d.Names.unquotedNames, old(d.Names.unquotedNames))
 //@ ensures anchor: newPos-d.prevStart >= pos-old(d.prevStart)
 //@ ensures balanced: len(d.Namespaces) == old(len(d.Namespaces)) && sameOrFresh(d.Namespaces, old(d.Namespaces))
-//@ ensures err-fresh: freshObject(asSuffixErr(err)) && (asSuffixErr(err) != nil ==> freshArray(asSuffixErr(err).reversePointer) || cap(asSuffixErr(err).reversePointer) == 0)
+//@ ensures err-fresh: freshObject(asSuffixErr(err)) && (asSuffixErr(err) != nil ==> freshArray(asSuffixErr(err).reversePointer))
+//@ ensures err-distinct: asSuffixErr(err) != nil ==> distinctArrays(asSuffixErr(err).reversePointer, d.buf) && distinctArrays(asSuffixErr(err).reversePointer, d.Names.unquotedNames)
 //@ ensures progress: err == nil ==> newPos-d.prevStart > pos-old(d.prevStart)
 //@ ensures depth-limit: depth == maxNestingDepth+1 ==> err == errMaxDepth && newPos == pos && d.baseOffset == old(d.baseOffset)
 //@ ensures depth-ok: err == errMaxDepth ==> depth == maxNestingDepth+1 || true
+//@ at call wrapWithObjectName#1 assert current1: sliceOf(d.quotedNameAt(absNamePos, n), d.buf)
+//@ at call wrapWithObjectName#2 assert current2: sliceOf(d.quotedNameAt(absNamePos, n), d.buf)
+//@ at call wrapWithObjectName#3 assert current3: sliceOf(d.quotedNameAt(absNamePos, n), d.buf)
+//@ at call wrapWithObjectName#4 assert current4: sliceOf(d.quotedNameAt(absNamePos, n), d.buf)
 //@ loop 0 invariant inv: dbInv(d.prevStart, d.prevEnd, len(d.buf), d.baseOffset) && d.baseOffset+int64(len(d.buf)) < 1<<61
 //@ loop 0 invariant pos: d.prevStart <= pos && pos <= len(d.buf) && depth == old(depth)+1 && depth <= maxNestingDepth+1
 //@ loop 0 invariant start: d.baseOffset+int64(d.prevStart) == old(d.baseOffset)+int64(old(d.prevStart))
+//@ loop 0 invariant wq: nsWindowQuoted(d.Names.offsets, d.buf, d.prevStart)
+//@ loop 0 invariant grow: len(d.buf)-d.prevStart >= old(len(d.buf))-old(d.prevStart)
 //@ loop 0 invariant end: d.baseOffset+int64(d.prevEnd) == old(d.baseOffset)+int64(old(d.prevEnd))
 //@ loop 0 invariant names: nsLocalOK(d.Names.offsets, d.Names.unquotedNames) && nsRemoteOK(d.Names.offsets, len(d.buf)) && distinctArrays(d.Names.unquotedNames, d.buf) && len(d.Names.offsets) == old(len(d.Names.offsets))
 //@ loop 0 invariant alias: sameOrFresh(d.buf, old(d.buf)) && sameOrFresh(d.Names.unquotedNames, old(d.Names.unquotedNames))
